@@ -585,6 +585,7 @@ type Contract struct {
 	Props     map[string]bool
 	External  bool
 	NoBody    bool   // contract only used at call sites
+	Blocking  bool   // channel sends in this body may block by design (rendezvous); no nonblocking obligation
 	LockOnly  bool   // only the lock obligations (C18) are generated for the body; everything else is assumed
 	Ghost     string // free-form note
 	Fresh     []string
@@ -664,7 +665,7 @@ func parseTags(s string) (props []string, label string, rest string) {
 }
 
 var clauseKW = map[string]bool{"requires": true, "ensures": true, "assigns": true, "pure": true, "trusted": true, "loop": true,
-	"at-call": true, "func": true, "spec": true, "ghost": true, "lemma": true, "axiom": true, "iterated": true, "signal": true, "fresh": true, "cover": true, "nobody": true, "lockonly": true, "ghost-set": true, "moninv": true, "opaque": true, "iterates": true}
+	"at-call": true, "func": true, "spec": true, "ghost": true, "lemma": true, "axiom": true, "iterated": true, "signal": true, "fresh": true, "cover": true, "nobody": true, "lockonly": true, "blocking": true, "ghost-set": true, "moninv": true, "opaque": true, "iterates": true}
 
 // LoadContractFile parses one contract file. pkgPath qualifies short function keys ("" for spec files,
 // whose keys are already fully qualified).
@@ -897,6 +898,8 @@ func (cs *ContractSet) LoadContractText(text, path, pkgPath string, external boo
 				cur.NoBody = true
 			case "lockonly":
 				cur.LockOnly = true
+			case "blocking":
+				cur.Blocking = true
 			case "iterated":
 				cur.Iterated = true
 			case "ghost-set":
@@ -1018,7 +1021,7 @@ func splitTopComma(s string) []string {
 // qualifyKey turns "Foo", "(*T).M", "(T).M", "Foo$1" into ssa.Function.String() form for package pkgPath.
 // Keys containing a '/' or starting with "invoke "/"field " or with a known std package are kept.
 func qualifyKey(key, pkgPath string) string {
-	if pkgPath == "" || strings.HasPrefix(key, "invoke ") || strings.HasPrefix(key, "field ") {
+	if pkgPath == "" || strings.HasPrefix(key, "invoke ") || strings.HasPrefix(key, "field ") || strings.HasPrefix(key, "dynamic ") {
 		return key
 	}
 	if strings.HasPrefix(key, "(") {
